@@ -440,7 +440,8 @@ class VizierServicer(vizier_service_pb2_grpc.VizierServiceServicer):
       ]
       new_trials = svz.TrialConverter.to_protos(new_py_trials)
 
-      while request.suggestion_count > len(output_trials):
+      # Pythia may under-deliver; hand out what it produced.
+      while new_trials and request.suggestion_count > len(output_trials):
         new_trial = new_trials.pop()
         trial_id = self.datastore.max_trial_id(request.parent) + 1
         new_trial.id = str(trial_id)
